@@ -192,7 +192,12 @@ def snapshot(ws, alias='default'):
         if not os.path.exists(path):
             return {'tables': {}, 'master': [], 'book': {}, 'fk_check': [],
                     'integrity': ['ok'], 'missing': True}
-        return snapshot_file(path)
+        snap = snapshot_file(path)
+        from evosim import runner
+        if runner.DIGEST is not None:
+            runner.digest_update([snap['master'], sorted(
+                (t, v['rows']) for t, v in snap['tables'].items())])
+        return snap
     finally:
         shutil.rmtree(d, ignore_errors=True)
 
